@@ -107,6 +107,11 @@ func guardHolds(n *conc.Node, m map[string]string) bool {
 // InputKey identifies the corpus input of the case independently of its position in the
 // corpus: family, description and injector name (hashed).
 func (ic *InjCase) InputKey() string {
+	if ic.Item.Prog.Family == "F4" {
+		// the random family depends on the seed: its inputs cannot be listed, a known
+		// finding matches there by its signature alone
+		return ""
+	}
 	h := sha256.Sum256([]byte(ic.Item.Prog.Family + "|" + ic.Item.Prog.Desc + "|" + ic.Decl.Name))
 	return fmt.Sprintf("%x", h[:6])
 }
